@@ -7,6 +7,10 @@ use crate::core::defs::SaitoHash;
 use crate::core::util::crypto::hash;
 use crate::iterate_mut;
 
+/// upper bound on the leaves of a block's merkle tree (transactions plus transactions replaced
+/// by placeholders)
+pub const MAX_MERKLE_TREE_LEAVES: u64 = 1 << 20;
+
 #[derive(PartialEq)]
 pub enum TraverseMode {
     DepthFist,
@@ -63,8 +67,27 @@ impl MerkleTree {
         return self.root.hash.unwrap();
     }
 
+    /// number of leaves the tree of these transactions would have (a placeholder transaction
+    /// stands for `txs_replacements` leaves)
+    pub fn count_leaves(transactions: &[Transaction]) -> u64 {
+        transactions
+            .iter()
+            .map(|tx| {
+                if tx.txs_replacements > 1 {
+                    tx.txs_replacements as u64
+                } else {
+                    1
+                }
+            })
+            .sum()
+    }
+
     pub fn generate(transactions: &Vec<Transaction>) -> Option<Box<MerkleTree>> {
         if transactions.is_empty() {
+            return None;
+        }
+        // the replacement counts come from the wire : never build a tree of a size no real block has
+        if MerkleTree::count_leaves(transactions) > MAX_MERKLE_TREE_LEAVES {
             return None;
         }
 
